@@ -66,7 +66,7 @@ CONC = {
     "C02": dict(families=["deploy"], invs=["C02"], dinvs=["D_C02"]),
     "C03": dict(families=["deploy", "pause", "rollout", "dueldrain"], invs=["C03_a", "C03_b", "C03_c"], dinvs=["D_C03_a", "D_C03_b", "D_C03_p"]),
     "C05": dict(families=["own", "duelown"], invs=["C05_a"], dinvs=["O_Ownership", "O_SomeoneWins", "A_RefusalJustified"]),
-    "C06": dict(families=["own"], invs=["C06_b"], dinvs=["O_FailedLeavesNothing", "A_FailChangesNothing", "O_NoLeak"]),
+    "C06": dict(families=["own"], invs=["C06_b", "C06_c"], dinvs=["O_FailedLeavesNothing", "A_FailChangesNothing", "O_NoLeak"]),
     "C07": dict(families=["pause", "duelstop"], invs=["C07_a", "C07_b", "C07_c", "C07_d", "C07_e", "C07_f"], dinvs=["D_C07_a", "D_C07_b", "D_C07_f"]),
     "C08": dict(families=["pause"], invs=["C08", "C08_fwd"], dinvs=["D_C08", "D_C07_a"]),
     "C09": dict(families=["health", "rollout", "duelprobe"], invs=["C09_a", "C09_b", "C09_c", "C09_d"], dinvs=["D_C09"]),
